@@ -36,7 +36,7 @@ def _solve_idx(arg):
     idx, timeout_ms = arg
     vc = _G['vcs'][idx]
     try:
-        r = solve.discharge(vc, timeout_ms)
+        r = solve.discharge(vc, timeout_ms, seed=_G.get('seed'))
     except Exception as e:     # noqa
         r = dict(name=vc.name, kind=vc.kind, verdict='error', backend='-', time_s=0.0, model=None, reason=repr(e))
     r['idx'] = idx
